@@ -44,6 +44,9 @@ class C12:
         per = 120 if tier == "quick" else 2400
         out = [dict(kind="json", index=i, n=per, inject=(i % 2 == 1), timeout=420 if tier == "quick" else 3000) for i in range(12)]
         out += [dict(kind="sqlite", index=50 + i, n=per // 2, inject=False, timeout=420 if tier == "quick" else 3000) for i in range(4)]
+        # one-preemption sweep: every statement line of the flusher / reader / append code in turn holds whichever thread
+        # reaches it for a few milliseconds, under a few standard append/flush/read sequences
+        out += [dict(kind="sweep", index=80 + i, nsweep=8, n=0, inject=False, timeout=420 if tier == "quick" else 3000) for i in range(8)]
         return out
 
     def floors(self, c, tier):
@@ -58,6 +61,8 @@ class C12:
             r.append("fewer than 200 reads overlapped a pending flusher")
         if c.get("delays_injected", 0) < 200:
             r.append("delay injection did not reach the flusher/reader code")
+        if c.get("sweep_sites", 0) < 60 or c.get("sweep_forced_delays_taken", 0) < 200:
+            r.append(f"one-preemption sweep covered too little ({c.get('sweep_sites', 0)} sites, {c.get('sweep_forced_delays_taken', 0)} forced delays)")
         return r
 
     def _setup(self):
@@ -145,7 +150,10 @@ class C12:
         except harness.CaseTimeout:
             raise
         except BaseException as x:  # noqa
-            rec.violation(f"{backend}/index/read-raises-{type(x).__name__}", case, {"msg": str(x)[:100]})
+            # the listed len()/index mismatch needs a rule that lets the flusher skip entries; without one it is something else
+            skip_rules = set(case.get("histcontrol") or []) & {"ignoredups", "ignoreerr"}
+            suffix = "" if (skip_rules or backend != "json") else "/no-skip-rule-in-HISTCONTROL"
+            rec.violation(f"{backend}/index/read-raises-{type(x).__name__}{suffix}", case, {"msg": str(x)[:100]})
             return None
 
     def check_lazyjson(self, filename, rec, case):
@@ -198,6 +206,13 @@ class C12:
     def run_case(self, case, rec):
         if not hasattr(self, "XSH"):
             self._setup()
+        if case.get("forced_site") and self.inj is None:
+            # replay of a sweep witness
+            from vlib.sched import Injector
+            import xonsh.history.json as J
+
+            self.inj = Injector(0, p=0.0).target(J.JsonHistoryFlusher.__init__, J.JsonHistoryFlusher.run, J.JsonHistoryFlusher.dump, J.JsonHistoryFlusher.i_am_at_the_front, J.JsonCommandField.__getitem__, J.JsonCommandField.i_am_at_the_front, J.JsonHistory.append, J.JsonHistory.flush, J.JsonHistory.__len__).start()
+            self.inj.forced = {(case["forced_site"][0], case["forced_site"][1]): case["forced_site"][2]}
         backend = case["backend"]
         rng = random.Random(case["rseed"])
         env = self.XSH.env
@@ -310,8 +325,43 @@ class C12:
         rec.count("sequences")
         rec.case(nontrivial=(backend, case["bufsize"], tuple(sorted(opts)), "".join(kinds)) if (nflush >= 2 or "c" in kinds) else None)
 
+    SWEEP_CASES = [
+        {"backend": "json", "rseed": "sweep/a", "steps": 30, "bufsize": 1, "histcontrol": [], "store_stdout": False, "inject": True},
+        {"backend": "json", "rseed": "sweep/b", "steps": 30, "bufsize": 2, "histcontrol": ["ignoredups"], "store_stdout": False, "inject": True},
+        {"backend": "json", "rseed": "sweep/c", "steps": 30, "bufsize": 3, "histcontrol": ["ignoreerr", "ignorespace"], "store_stdout": True, "inject": True},
+    ]
+
+    def run_sweep(self, sh, rec):
+        from vlib.sched import Injector, _code_of
+        import xonsh.history.json as J
+
+        funcs = [J.JsonHistoryFlusher.__init__, J.JsonHistoryFlusher.run, J.JsonHistoryFlusher.dump, J.JsonHistoryFlusher.i_am_at_the_front, J.JsonCommandField.__getitem__, J.JsonCommandField.i_am_at_the_front, J.JsonHistory.append, J.JsonHistory.flush, J.JsonHistory.__len__]
+        self.inj = Injector(0, p=0.0).target(*funcs).start()
+        sites = []
+        for f in funcs:
+            c = _code_of(f)
+            sites += [(c.co_name, ln) for ln in sorted({ln for _, _, ln in c.co_lines() if ln is not None and ln > c.co_firstlineno})]
+        sites = sorted(set(sites))
+        holds = [0.004] if sh["tier"] == "quick" else [0.002, 0.008, 0.03]
+        mine = [(c, l, h) for (c, l) in sites[sh["index"] % sh["nsweep"] :: sh["nsweep"]] for h in holds]
+        for k, (coname, ln, hold) in enumerate(harness.budgeted(mine, rec)):
+            rec.count("sweep_sites")
+            before = self.inj.stats()["delays_injected"]
+            self.inj.forced = {(coname, ln): hold}
+            for j, base in enumerate(self.SWEEP_CASES):
+                case = dict(base, forced_site=[coname, ln, hold])
+                if k == 0 and j == 0:
+                    rec.sample(case, "sweep")
+                self.inj.new_case()
+                self.run_case(case, rec)
+            rec.count("sweep_forced_delays_taken", self.inj.stats()["delays_injected"] - before)
+        self.inj.forced = {}
+        self.inj.stop()
+
     def run_shard(self, sh, rec):
         self._setup()
+        if sh["kind"] == "sweep":
+            return self.run_sweep(sh, rec)
         rng = random.Random(f"{sh['seed']}/C12/{sh['index']}")
         if sh["inject"]:
             self.inj = self.injector(sh["seed"])
